@@ -375,15 +375,25 @@ ApplyEffect(h, n, e) ==
 
 \* Loader.__savorize order: registered direct bases first (recursively),
 \* then the class itself if its own body defines the hook
-RECURSIVE SavChain(_)
+\* A class reached along two inheritance paths (diamond) is savorized ONCE,
+\* where it is reached first ("each called exactly once", C10): the raw
+\* depth-first chain with later repetitions removed.
+FirstOccurrences(s) ==
+    LET F[i \in 0..Len(s)] ==
+          IF i = 0 THEN <<>>
+          ELSE IF \E j \in 1..Len(F[i - 1]) : F[i - 1][j] = s[i] THEN F[i - 1]
+               ELSE Append(F[i - 1], s[i])
+    IN F[Len(s)]
+RECURSIVE SavChainRaw(_)
 RECURSIVE SavChainBases(_, _)
 SavChainBases(bs, i) ==
     IF i > Len(bs) THEN <<>>
-    ELSE (IF bs[i] \in ClassNames /\ IsReg(bs[i]) THEN SavChain(bs[i]) ELSE <<>>)
+    ELSE (IF bs[i] \in ClassNames /\ IsReg(bs[i]) THEN SavChainRaw(bs[i]) ELSE <<>>)
          \o SavChainBases(bs, i + 1)
-SavChain(cname) ==
+SavChainRaw(cname) ==
     SavChainBases(Cls(cname).bases, 1) \o
     (IF Cls(cname).hassav THEN <<cname>> ELSE <<>>)
+SavChain(cname) == FirstOccurrences(SavChainRaw(cname))
 
 (* ------------------------------------------------------------------------ *)
 (* construction (PyYAML SafeConstructor + yatiml constructors)              *)
